@@ -107,8 +107,9 @@ fn render_container(kind: &str, types: &[String]) -> String {
         "contractmixed" => format!("pragma solidity 0.8.17;\nlibrary Lib {{}}\ncontract Holder {{\n{}}}\n", mixed),
         "contract" => format!("pragma solidity 0.8.17;\n\ncontract Holder {{\n{}}}\n", members),
         "abstractcontract" => format!("pragma solidity 0.8.17;\n\nabstract contract Base {{\n{}}}\n", members),
-        "filestruct" => format!("pragma solidity 0.8.17;\n\nstruct Rec {{\n{}}}\n", members),
-        _ => format!("pragma solidity 0.8.17;\n\ncontract Outer {{\n  struct Rec {{\n{}  }}\n}}\n", members),
+        // (any white space may follow the keyword)
+        "filestruct" => format!("pragma solidity 0.8.17;\n\nstruct{}Rec {{\n{}}}\n", ["\t", " ", "  "][types.len() % 3], members),
+        _ => format!("pragma solidity 0.8.17;\n\ncontract Outer {{\n  struct{}Rec {{\n{}  }}\n}}\n", [" ", "\t", " /**/ "][types.len() % 3], members),
     }
 }
 
